@@ -115,7 +115,8 @@ def needed_and_missing(spec, removed):
     out = []
     for kind, idx, what in removed:
         if kind == "block":
-            rb = spec["blocks"][idx]
+            rb = dict(spec["blocks"][idx])
+            rb["rules"] = [r for r in rb["rules"] if not r.get("broken")]  # a rule whose load is rejected needs nothing
             ops = set().union(*[tree_ops(r["tree"]) for r in rb["rules"]]) if rb["rules"] else set()
             if what == "conjunction" and "and" in ops:
                 out.append((rb["name"], "conjunction"))
@@ -162,7 +163,9 @@ def run(ctx):
         mon = ReadyMonitor(ctx, fl)
         mon.install(probe)
         for i, rnd in ctx.cases("engines", nengines):
-            spec = E.gen_engine(rnd, activations=("General",), flags=False, locks=False, d=3, resolutions=[5, 10, 37], max_depth=2, allow_output_antecedent=True, share_defuzzifier=True, free_weights=True, routes=True)
+            spec = E.gen_engine(rnd, activations=("General",), flags=False, locks=False, d=3, resolutions=[5, 10, 37], max_depth=2, allow_output_antecedent=True, share_defuzzifier=True, free_weights=True, routes=True, broken_rules=True)
+            if E.rejected_rules(spec):
+                ctx.hit("workload:engine with a rule whose load is rejected")
             items = removable(spec)
             subsets = [c for r in range(len(items) + 1) for c in itertools.combinations(items, r)]
             if len(subsets) > cap:
@@ -280,7 +283,7 @@ def run(ctx):
             ctx.hit("workload:shared defuzzifier object")
         probe.report(ctx)
         reach.report(ctx)
-    ctx.require("workload:shared defuzzifier object", "workload:engines with disabled components")
+    ctx.require("workload:shared defuzzifier object", "workload:engines with disabled components", "workload:engine with a rule whose load is rejected")
     ctx.require("hook:Engine.is_ready", "hook:Engine.process", "event:is_ready:True", "event:is_ready:False", "event:process after ready", "converse:conjunction", "converse:disjunction", "converse:implication", "converse:aggregation", "converse:defuzzifier", "raise-site:Antecedent.activation_degree:missing operator surfaced", "raise-site:OutputVariable.defuzzify:missing operator surfaced")
 
 
